@@ -251,11 +251,17 @@ def _entry_kind(func: FuncInfo, cls: ClassInfo, model: Model) -> t.Optional[str]
     return None
 
 
-def rule_c04_r1(model: Model) -> RuleResult:
-    r = RuleResult('C04-R1', 'every may-raise source of the conversion zone is covered by a handler', floor=25)
+def rule_c04_r1_for(model: Model, class_names: t.Sequence[str]) -> RuleResult:
+    return rule_c04_r1(model, class_names)
+
+
+def rule_c04_r1(model: Model, only: t.Optional[t.Sequence[str]] = None) -> RuleResult:
+    r = RuleResult('C04-R1', 'every may-raise source of the conversion zone is covered by a handler', floor=25 if only is None else 2)
     zone = conversion_zone(model)
     seen_sources: t.Set[t.Tuple[str, int, int]] = set()
     for cls in family(model):
+        if only is not None and cls.name not in only:
+            continue
         funcs = zone[cls.qualname]
         za = ZoneAnalysis(model, cls, funcs)
         byname = {f.name: f for f in funcs}
